@@ -306,7 +306,10 @@ class ListObjectPathComponent(_ObjectPathComponent):
         self.index = index
 
     def __str__(self):
-        return "%s[%s]" % (quote_if_needed(self.property_name), self.index)
+        name = self.property_name
+        if not name.endswith("]"):  # not an index applied to an indexed step
+            name = quote_if_needed(name)
+        return "%s[%s]" % (name, self.index)
 
 
 class ReferenceObjectPathComponent(_ObjectPathComponent):
